@@ -294,6 +294,21 @@ fn some_container(st: &mut St, g: &mut Gen, want_var: Option<bool>, tape: usize)
     }
 }
 
+/// now and then the derivatives of a fresh result w.r.t. the variable operands it was made from
+fn follow_derivs(st: &mut St, g: &mut Gen, result: &str, tape: Option<usize>, operands: &[(&CInfo, String)]) {
+    let t = match tape {
+        Some(t) => t,
+        None => return,
+    };
+    let wrt: Vec<String> = operands.iter().filter(|(c, _)| c.tape == Some(t)).map(|(_, tok)| tok.clone()).collect();
+    if wrt.is_empty() || st.load[t] > 300 || !g.rng.chance(1, 3) {
+        return;
+    }
+    let via = pick_form(g, "c06.form", "derivs", &["all", "for"]);
+    g.count("c06.derivs.directly_after_operation");
+    g.op(format!("derivs {} wrt={} via={}", result, wrt.join(","), via));
+}
+
 const UOPS_NUM: [&str; 6] = ["addn", "subn", "muln", "divn", "subsw", "divsw"];
 const UOPS_REAL_NUM: [&str; 2] = ["pown", "npow"];
 const UOPS_PLAIN: [&str; 1] = ["neg"];
@@ -342,7 +357,8 @@ fn step_unary(st: &mut St, g: &mut Gen, tape: usize) {
         }
     };
     g.op(line);
-    st.push(name, c.is_matrix, vs, c.tape, true);
+    st.push(name.clone(), c.is_matrix, vs, c.tape, true);
+    follow_derivs(st, g, &name, c.tape, &[(&c, a)]);
 }
 
 /// operands for an elementwise binary operation in the wanted pairing; `cross`: the two
@@ -386,7 +402,9 @@ fn step_binary(st: &mut St, g: &mut Gen, tape: usize, cross: bool) {
     g.count(&format!("c06.op.{}.{}{}", op, kind, if cross { ".cross_tape" } else { "" }));
     g.op(line);
     if !cross {
-        st.push(name, ca.is_matrix, shape, result_tape(ca.tape, cb.tape), true);
+        let t = result_tape(ca.tape, cb.tape);
+        st.push(name.clone(), ca.is_matrix, shape, t, true);
+        follow_derivs(st, g, &name, t, &[(&ca, a), (&cb, b)]);
     }
 }
 
@@ -475,7 +493,8 @@ fn step_matmul(st: &mut St, g: &mut Gen, tape: usize, cross: bool) {
         if let Some(t) = t {
             st.load[t] += elems(&shape) * 2 * n;
         }
-        st.push(name, ca.is_matrix, shape, t, true);
+        st.push(name.clone(), ca.is_matrix, shape, t, true);
+        follow_derivs(st, g, &name, t, &[(&ca, operand_tok(&ca, &av)), (&cb, operand_tok(&cb, &bv))]);
     }
 }
 
@@ -897,6 +916,128 @@ fn gen_case(g: &mut Gen, rat: bool) {
 // systematic sections
 // ---------------------------------------------------------------------------------------------
 
+/// Every ownership form of every operator family (and every entry point of the assigning /
+/// mapping / reset families) once per container kind and variable/constant pairing, each followed
+/// by the derivatives of every output element w.r.t. every element of the variable operands — so
+/// that a wrong local derivative in one single impl body cannot go unobserved.  Counters
+/// `c06.forms.<kind>.<op>.<form>` (each stands for one derivative-checked execution).
+fn gen_every_form(g: &mut Gen) {
+    for kind in ["T", "M"] {
+        let (sx, sy, sm) = if kind == "T" { ("a:1,b:2", "a:1,b:2", "b:2,c:1") } else { ("r:1,c:2", "r:1,c:2", "r:2,c:1") };
+        let head = |g: &mut Gen, ys: &str, pairing: &str| {
+            g.op("@ tapes 1 fp".into());
+            let (vx, vy) = (values(g, 2), values(g, 2));
+            let (xv, yv) = match pairing {
+                "var_var" => (true, true),
+                "var_const" => (true, false),
+                _ => (false, true),
+            };
+            g.op(if xv { format!("vars x {} {} {} t=0", kind, sx, vx) } else { format!("consts x {} {} {}", kind, sx, vx) });
+            g.op(if yv { format!("vars y {} {} {} t=0", kind, ys, vy) } else { format!("consts y {} {} {}", kind, ys, vy) });
+            match pairing {
+                "var_var" => "x,y",
+                "var_const" => "x",
+                _ => "y",
+            }
+        };
+        let pairings = ["var_var", "var_const", "const_var"];
+        // two-container operators
+        for op in ["add", "sub", "matmul"] {
+            for form in FORMS4 {
+                for pairing in pairings {
+                    g.count(&format!("c06.forms.{}.{}.{}", kind, op, form));
+                    let wrt = head(g, if op == "matmul" { sm } else { sy }, pairing);
+                    g.op(format!("{} z x y via={}", op, form));
+                    g.op(format!("derivs z wrt={} via=all", wrt));
+                }
+            }
+        }
+        for op in ["emul", "ediv"] {
+            for pairing in pairings {
+                g.count(&format!("c06.forms.{}.{}.ref_ref", kind, op));
+                let wrt = head(g, sy, pairing);
+                g.op(format!("{} z x y", op));
+                g.op(format!("derivs z wrt={} via=for", wrt));
+            }
+        }
+        for f in BFNS {
+            for pairing in pairings {
+                g.count(&format!("c06.forms.{}.binary.{}", kind, f));
+                let wrt = head(g, sy, pairing);
+                g.op(format!("binary z x y fn={}", f));
+                g.op(format!("derivs z wrt={} via=all", wrt));
+                for (op, vias) in [("lassign", ["assign", "do"]), ("rassign", ["assign", "do"])] {
+                    for via in vias {
+                        g.count(&format!("c06.forms.{}.{}.{}", kind, op, via));
+                        let _ = head(g, sy, pairing);
+                        g.op(format!("{} x y fn={} via={}", op, f, via));
+                        // the overwritten container w.r.t. the untouched variable operand (the other
+                        // one no longer holds its old positions)
+                        let (target, other, other_var) = if op == "lassign" { ("x", "y", pairing != "var_const") } else { ("y", "x", pairing != "const_var") };
+                        if other_var {
+                            g.op(format!("derivs {} wrt={} via=all", target, other));
+                        } else {
+                            g.op(format!("derivs {} wrt={} via=all", target, target));
+                        }
+                    }
+                }
+            }
+        }
+        // one container and a number, both orders; one container
+        let one = |g: &mut Gen, line: String| {
+            g.op("@ tapes 1 fp".into());
+            let vx = values(g, 2);
+            g.op(format!("vars x {} {} {} t=0", kind, sx, vx));
+            g.op(line);
+            g.op("derivs z wrt=x via=all".into());
+        };
+        for op in ["addn", "subn", "muln", "divn", "subsw", "divsw", "pown"] {
+            for form in FORMS4 {
+                g.count(&format!("c06.forms.{}.{}.{}", kind, op, form));
+                let k = value(g);
+                one(g, format!("{} z x {} via={}", op, k, form));
+            }
+        }
+        for form in FORMS4 {
+            g.count(&format!("c06.forms.{}.npow.{}", kind, form));
+            let k = value(g);
+            one(g, format!("npow z {} x via={}", k, form));
+        }
+        for op in ["neg", "sin", "cos", "exp", "ln", "sqrt"] {
+            for form in FORMS2 {
+                g.count(&format!("c06.forms.{}.{}.{}", kind, op, form));
+                one(g, format!("{} z x via={}", op, form));
+            }
+        }
+        for f in UNARY_FNS {
+            g.count(&format!("c06.forms.{}.unary.{}", kind, f));
+            one(g, format!("unary z x fn={}", f));
+            for via in ["assign", "do"] {
+                g.count(&format!("c06.forms.{}.uassign.{}", kind, via));
+                g.op("@ tapes 1 fp".into());
+                let vx = values(g, 2);
+                g.op(format!("vars x {} {} {} t=0", kind, sx, vx));
+                g.op("neg x0 x via=ref".into());
+                g.op(format!("uassign x0 fn={} via={}", f, via));
+                g.op("derivs x0 wrt=x via=for".into());
+            }
+        }
+        for (via, f) in [("map", "sq"), ("map", "aff"), ("with_index", "scale"), ("with_index", "sq")] {
+            g.count(&format!("c06.forms.{}.map.{}", kind, via));
+            one(g, format!("map z x fn={} via={}", f, via));
+        }
+        for (via, f) in [("map_mut", "sq"), ("map_mut", "aff"), ("with_index", "scale"), ("with_index", "aff")] {
+            g.count(&format!("c06.forms.{}.mapmut.{}", kind, via));
+            g.op("@ tapes 1 fp".into());
+            let vx = values(g, 2);
+            g.op(format!("vars x {} {} {} t=0", kind, sx, vx));
+            g.op("neg x0 x via=ref".into());
+            g.op(format!("mapmut x0 fn={} via={}", f, via));
+            g.op("derivs x0 wrt=x via=all".into());
+        }
+    }
+}
+
 /// the witness of defect 11 and its mirror images, for tensors and matrices
 fn gen_constant_operand_matmul(g: &mut Gen) {
     for kind in ["T", "M"] {
@@ -1014,8 +1155,20 @@ fn scan_operator_macros(repo: &str) -> Option<Vec<(String, String, String)>> {
     let mut out = vec![];
     for file in ["src/differentiation/container_record/container_operations.rs", "src/differentiation/container_record/container_operations/swapped.rs"] {
         let text = std::fs::read_to_string(format!("{}/{}", repo, file)).ok()?;
+        // the `SwappedOperations` impl the scan is inside of: its method bodies are listed one by one
+        let mut swapped_impl: Option<(String, String)> = None;
         for line in text.lines() {
             let l = line.trim_start();
+            if line.starts_with("impl<") {
+                swapped_impl = None;
+            }
+            if let Some((form, cont)) = &swapped_impl {
+                for method in ["sub_swapped", "div_swapped"] {
+                    if l.starts_with(&format!("fn {}(", method)) {
+                        out.push((format!("{}.{}", form, method), "SwappedOperations".to_string(), cont.clone()));
+                    }
+                }
+            }
             if line.starts_with("record_") && l.contains("!(impl ") {
                 let mac = l.split('!').next().unwrap().to_string();
                 let rest = l.split("!(impl ").nth(1).unwrap();
@@ -1032,6 +1185,9 @@ fn scan_operator_macros(repo: &str) -> Option<Vec<(String, String, String)>> {
                     if l.split(" for ").nth(1).unwrap_or("").starts_with('&') { "ref" } else { "val" },
                     if l.contains("<&") { "ref" } else { "val" }
                 );
+                if tr == "SwappedOperations" {
+                    swapped_impl = Some((format!("impl_{}", form), cont.to_string()));
+                }
                 out.push((format!("impl_{}", form), tr.to_string(), cont.to_string()));
             }
         }
@@ -1073,6 +1229,8 @@ fn check_catalogue(g: &mut Gen) {
         for form in ["val_val", "val_ref", "ref_val", "ref_ref"] {
             known.push((format!("impl_{}", form), "Mul", cont));
             known.push((format!("impl_{}", form), "SwappedOperations", cont));
+            known.push((format!("impl_{}.sub_swapped", form), "SwappedOperations", cont));
+            known.push((format!("impl_{}.div_swapped", form), "SwappedOperations", cont));
         }
     }
     for (mac, tr, cont) in &found {
@@ -1092,6 +1250,7 @@ fn check_catalogue(g: &mut Gen) {
 
 pub fn gen(g: &mut Gen) {
     check_catalogue(g);
+    gen_every_form(g);
     gen_constant_operand_matmul(g);
     gen_cross_tape(g);
     gen_reset_cycles(g);
